@@ -5,6 +5,8 @@
 set -u
 export GOFLAGS=-mod=mod GOPROXY=off GOSUMDB=off GOTOOLCHAIN=local
 WT=$1; OUT=$2; PKG=$3; RUN=$4
+# Own temporary directory: suites confirmed side by side otherwise share fixed temporary paths (TestRules/PathGood).
+export TMPDIR=$(mktemp -d /tmp/confirm-tmp.XXXXXX); trap 'rm -rf "$TMPDIR"' EXIT
 cd "$WT" || exit 2
 DEMO=$(ls "$OUT"/*_test.go | head -1)
 git checkout -q -- . ; git clean -fdq
